@@ -121,14 +121,19 @@ impl AssemblyBuffer {
     let payload_size = to_before_byte - from_byte;
 
     // sanity check data size
-    // Last fragment may be smaller than frags_in_submessage * frag_size
-    let last_frag_in_submessage = start_frag_from_0 + frags_in_submessage;
-    if last_frag_in_submessage < self.fragment_count
-      && datafrag.serialized_payload.len() < frags_in_submessage * frag_size
-    {
+    // Every fragment must be there in full. Only the last fragment of the sample
+    // may be smaller than frag_size: it is as long as what remains of the sample.
+    // A fragment that was cut short is discarded, so that it stays missing and
+    // is requested again, instead of completing the sample with a hole in it.
+    let expected_size = std::cmp::min(
+      frags_in_submessage * frag_size,
+      self.buffer_bytes.len() - from_byte,
+    );
+    if datafrag.serialized_payload.len() < expected_size {
       error!(
         "Received DATAFRAG too small. fragment_starting_num={} out of fragment_count={}, \
-         frags_in_submessage={}, frag_size={} but payload length = {}. Original data_size={}",
+         frags_in_submessage={}, frag_size={} but payload length = {}. Original data_size={}. \
+         Discarding.",
         fragment_starting_num,
         self.fragment_count,
         frags_in_submessage,
@@ -136,6 +141,7 @@ impl AssemblyBuffer {
         datafrag.serialized_payload.len(),
         datafrag.data_size,
       );
+      return;
     }
 
     debug!(
